@@ -22,6 +22,10 @@ package c18
 //                     answers every name as memory does, and only entries
 //                     covered by others were dropped by the loader
 //   NewestWins        every call returned => `local` is the last snapshot
+//   PreviousFileKept  no step takes an existing `local` away: a persist that
+//                     is interrupted or FAILS (fault_test.go: the labels
+//                     Vanish and FailWrite(p) of BlRefresh.tla's fault steps)
+//                     leaves the previous complete file
 //
 // The same steps are written as NDJSON and validated by TLC against
 // Trace_BlPersist.tla (the invariants of the spec on the observed states).
@@ -97,6 +101,7 @@ type pWriter struct {
 	active  bool
 	at      int
 	snapVer uint64
+	nlines  int // entry lines written to the temp file of the persist in flight (fault_test.go)
 	release chan struct{}
 }
 
@@ -132,6 +137,8 @@ type pRun struct {
 	// refreshed: the schedule waited for New()'s background refresh (1 s after construction) on purpose, as a
 	// step of the model (BlRefresh.tla); nothing after it can be disturbed by the timer any more
 	refreshed bool
+	// faulted: the schedule injected an I/O fault (fault_test.go); the end state is judged by convergedAfterFault
+	faulted  bool
 	verdicts int // violations recorded by this schedule
 }
 
@@ -210,7 +217,10 @@ func readListFile(path string) (fileObs, error) {
 		o.raw = append(o.raw, line)
 	}
 	if len(data) > 0 && data[len(data)-1] != '\n' {
-		// an unterminated last line is a partial write
+		// an unterminated last line is a partial write (a partial header leaves no entry line to mark)
+		if len(o.raw) == 0 {
+			o.raw = append(o.raw, "")
+		}
 		o.raw[len(o.raw)-1] += "<unterminated>"
 	}
 	sort.Strings(o.raw)
@@ -225,12 +235,12 @@ func (r *pRun) observe() (mem []string, local, tmp fileObs, ver, lp uint64, err 
 	}
 	local.Lines = r.ids(local.raw)
 	tmps, _ := filepath.Glob(filepath.Join(r.dir, "local.tmp.*"))
-	if len(tmps) > 1 {
+	if len(tmps) > 1 && r.verdicts == 0 {
 		err = fmt.Errorf("%d temp files", len(tmps))
 		return
 	}
-	if len(tmps) == 1 {
-		tmp, err = readListFile(tmps[0])
+	if len(tmps) >= 1 { // (more than one only after a verdict: a failed persist left its temp file behind)
+		tmp, err = readListFile(tmps[len(tmps)-1])
 		if err != nil {
 			return
 		}
@@ -300,6 +310,14 @@ func (r *pRun) afterStep(p int, a pArrival, ev string) error {
 			w.snapVer = a.ver
 		}
 	}
+	// PreviousFileKept: "an interruption during persistence leaves the previous complete file" -- no step of a
+	// persist (the failure paths after an injected fault included) may take an existing `local` away
+	if !local.Ex && r.lastLoc != "absent" {
+		r.violate("PreviousFileKept", fmt.Sprintf("the file `local` (it held [%s]) is gone after this step; temp file left behind: %v %v",
+			r.lastLoc, tmp.Ex, tmp.raw), map[string]any{"previous": r.lastLoc})
+		r.lastLoc = "absent" // reported once
+		return nil
+	}
 	// DiskIsASnapshot
 	if local.Ex {
 		ok := setKey(local.raw) == setKey(r.initStrings())
@@ -359,6 +377,11 @@ func (r *pRun) await(w *pWriter) (pArrival, error) {
 			w.at = 0
 		} else {
 			w.at = a.point
+			if a.point == gTempCreated {
+				w.nlines = 0
+			} else if a.point == gWroteLine {
+				w.nlines++
+			}
 		}
 		return a, nil
 	case <-time.After(20 * time.Second):
@@ -686,6 +709,7 @@ func (r *pRun) runSchedule(sched []string) error {
 	r.events = append(r.events, map[string]any{"ev": "Reset"})
 	r.tainted = false
 	r.refreshed = false
+	r.faulted = false
 	r.verdicts = 0
 	crashed := false
 	for _, lab := range sched {
@@ -717,6 +741,24 @@ func (r *pRun) runSchedule(sched []string) error {
 			continue
 		}
 		p, _ := strconv.Atoi(m[2])
+		if m[1] == "Vanish" || m[1] == "FailWrite" {
+			// an I/O fault of BlRefresh.tla (TempVanish / FailWrite) injected from outside: fault_test.go
+			r.hist = append(r.hist, lab)
+			ok, err := r.faultStep(m[1], p)
+			if err != nil {
+				return err
+			}
+			if !ok {
+				r.hist = r.hist[:len(r.hist)-1]
+				r.res.Count("steps_not_enabled", 1)
+				continue
+			}
+			r.res.Count("steps", 1)
+			if r.verdicts > 0 || r.tainted {
+				break
+			}
+			continue
+		}
 		// the step is part of the history before it runs: a predicate that
 		// fails during it must name it
 		r.hist = append(r.hist, fmt.Sprintf("%s(%d)", m[1], p))
@@ -768,7 +810,12 @@ func (r *pRun) runSchedule(sched []string) error {
 	if r.verdicts > 0 {
 		return nil
 	}
-	if err := r.converged(); err != nil {
+	if r.faulted {
+		// persist is best effort under I/O faults: convergence is owed only when the newest snapshot reached the disk
+		if err := r.convergedAfterFault(); err != nil {
+			return err
+		}
+	} else if err := r.converged(); err != nil {
 		return err
 	}
 	if r.tainted {
